@@ -171,3 +171,16 @@ Theorem C05_inv2_kept_outside_propagate : forall XS st,
   (Inv2 XS (clear_trail st) /\ PIdx (clear_trail st)) /\
   (forall id w, XS id \/ ~ (pfalse st (fst w) /\ pfalse st (snd w)) -> Inv2 XS (start_watching st id w)).
 Proof. exact inv2_kept_outside. Qed.
+
+(* ---- every assignment of the propagate model is a unit-propagation step of the abstract machine the run
+   theorems are about (Cdcl/UnitSteps.v): the literal is a literal of its reason clause, every other literal
+   of that clause is false under the older part of the trail (Trail.unit_under), the variable was unassigned
+   -- for every database, watch state satisfying the watch invariant and registered assertions ---- *)
+From Resolvo Require Import Cdcl.UnitSteps.
+Theorem C05_propagate_takes_unit_steps : forall db level asserts units st st' r,
+  WInv db (ps_watch st) (ps_lists st) -> tnodup st ->
+  (forall x, In x (asserts ++ units) -> assert_just db st x = true) ->
+  (forall x, In x (asserts ++ units) -> assert_in db x) ->
+  propagate db level asserts units st = Some (st', r) ->
+  ugrows db (ps_trail st) (ps_trail st').
+Proof. exact propagate_unit_steps. Qed.
